@@ -58,6 +58,10 @@ class BaseGotranODECodePrinter(StrPrinter):
     def _print_And(self, expr):
         return f"And({', '.join(self._print(a) for a in expr.args)})"
 
+    def _print_Not(self, expr):
+        # sympy prints Not as ~, which is not part of the grammar
+        return f"Not({self._print(expr.args[0])})"
+
     def _print_BooleanFalse(self, expr):
         return "0"
 
